@@ -2,7 +2,7 @@
 From Coq Require Import NArith List Bool.
 Import ListNotations.
 From DV Require Import Base.Outcome Base.Bytes Base.Lex Base.Names.
-From DV Require Import C17.Model C17.Proofs C18.Model C14.Gen C14.Model C14.Proofs C14.ProofsDenial C14.ProofsSig C14.ProofsL2H.
+From DV Require Import C17.Model C17.Proofs C18.Model C14.Gen C14.Model C14.Proofs C14.ProofsDenial C14.ProofsSig C14.ProofsL2H C14.ModelN3 C14.ProofsN3 C14.ModelChain C14.ProofsChain C14.ModelDs C14.ProofsDs.
 Local Open Scope N_scope.
 
 Theorem C14_nsec_in_range_spec : forall t o n,
@@ -183,3 +183,91 @@ Theorem C14_negative_secure_sound : forall nx t qt s gs e,
        (exists e', nsec_for_nodata_wildcard t (map fst gs) qt s = Ok (NoData, e')).
 Proof. exact negative_secure_sound. Qed.
 Print Assumptions C14_negative_secure_sound.
+
+(* ---- NSEC3 (RFC 5155 8.3 - 8.7), for every hash function H *)
+Theorem C14_n3_checked_some : forall ci cb g s oh, get_checked_nsec3 ci cb g s = Ok (CSome oh) ->
+  h_nrr g = 1 /\ h_is_nsec3 g = true /\ h_secure g = true /\ name_eqb (h_signer g) s = true /\
+  h_alg g = 1 /\ h_iter g <= ci /\ h_iter g <= cb /\
+  nsec3_label_to_hash (h_label g) = Ok oh /\ length oh = length (h_next g).
+Proof. exact (checked_some (fun _ _ _ => [])). Qed.
+Print Assumptions C14_n3_checked_some.
+
+Theorem C14_n3_not_exists_sound : forall H ci cb t gs s r e,
+  nsec3_for_not_exists H ci cb t gs s = Ok (r, e) ->
+  match r with
+  | N3DNE ce => e = 0 /\ established H ci cb gs s ce /\
+      exists l, suffix_of (l :: ce) t /\ exists g oh, In g gs /\ usable3 ci cb g s oh /\ covers3 H g oh (l :: ce) /\ h_optout g = false
+  | N3DNEInsecure ce => established H ci cb gs s ce /\
+      exists l, suffix_of (l :: ce) t /\ exists g oh, In g gs /\ usable3 ci cb g s oh /\ covers3 H g oh (l :: ce) /\ h_optout g = true
+  | _ => True
+  end.
+Proof. exact n3_not_exists_sound. Qed.
+Print Assumptions C14_n3_not_exists_sound.
+
+Theorem C14_n3_nxdomain_sound : forall H ci cb t gs s ce e,
+  nsec3_for_nxdomain H ci cb t gs s = Ok (N3DNE ce, e) ->
+  established H ci cb gs s ce /\
+  (exists l, suffix_of (l :: ce) t /\ exists g oh, In g gs /\ usable3 ci cb g s oh /\ covers3 H g oh (l :: ce) /\ h_optout g = false) /\
+  exists g oh, In g gs /\ usable3 ci cb g s oh /\ nsec3_in_range (hash_of H g (star_label :: ce)) oh (h_next g) = true /\ h_optout g = false.
+Proof. exact n3_nxdomain_sound. Qed.
+Print Assumptions C14_n3_nxdomain_sound.
+
+Theorem C14_n3_nodata_sound : forall H ci cb t gs rt s e,
+  nsec3_for_nodata H ci cb t gs rt s = Ok (S3NoData, e) ->
+  e = 0 /\ exists g oh, In g gs /\ usable3 ci cb g s oh /\ oh = hash_of H g t /\ hasn rt g = false /\ hasn rt_CNAME g = false /\
+     (if rt =? rt_DS then hasn rt_NS g && hasn rt_SOA g = false else hasn rt_NS g && negb (hasn rt_SOA g) = false).
+Proof. exact n3_nodata_sound. Qed.
+Print Assumptions C14_n3_nodata_sound.
+
+Theorem C14_n3_nodata_wildcard_sound : forall H ci cb t gs rt s e,
+  nsec3_for_nodata_wildcard H ci cb t gs rt s = Ok (S3NoData, e) ->
+  exists ce, established H ci cb gs s ce /\
+    (exists l, suffix_of (l :: ce) t /\ exists g oh, In g gs /\ usable3 ci cb g s oh /\ covers3 H g oh (l :: ce) /\ h_optout g = false) /\
+    exists g oh, In g gs /\ usable3 ci cb g s oh /\ oh = hash_of H g (star_label :: ce) /\ hasn rt g = false /\ hasn rt_CNAME g = false.
+Proof. exact n3_nodata_wildcard_sound. Qed.
+Print Assumptions C14_n3_nodata_wildcard_sound.
+
+Theorem C14_n3_helpers_total : forall H ci cb t gs rt s, label_to_hash_expects = false ->
+  no_panic (nsec3_for_not_exists H ci cb t gs s) /\ no_panic (nsec3_for_nodata H ci cb t gs rt s) /\
+  no_panic (nsec3_for_nxdomain H ci cb t gs s) /\ no_panic (nsec3_for_nodata_wildcard H ci cb t gs rt s).
+Proof. exact n3_helpers_total. Qed.
+Print Assumptions C14_n3_helpers_total.
+
+(* ---- DS -> DNSKEY step of the chain, for every digest function and signature oracle *)
+Theorem C14_secure_implies_chain : forall dg vf dss keys sigs maxbad,
+  child_node_state dg vf dss keys sigs maxbad = Secure ->
+  exists d k s, In d dss /\ ds_supported d = true /\ In k keys /\ In s sigs /\
+    k_alg k = d_alg d /\ k_tag k = d_tag d /\ d_digest d = dg k (d_dt d) /\
+    sg_tag s = k_tag k /\ vf k s = true.
+Proof. exact secure_implies_chain. Qed.
+Print Assumptions C14_secure_implies_chain.
+
+Theorem C14_insecure_iff_no_supported_ds : forall dg vf dss keys sigs maxbad,
+  child_node_state dg vf dss keys sigs maxbad = Insecure <-> forall d, In d dss -> ds_supported d = false.
+Proof. exact insecure_iff_no_supported_ds. Qed.
+Print Assumptions C14_insecure_iff_no_supported_ds.
+
+(* ---- insecure delegations: nsec_for_ds / nsec3_for_ds *)
+Theorem C14_nsec_for_ds_insecure_sound : forall t gs,
+  nsec_for_ds t gs = InsecureDelegation -> exists g, In g gs /\ nsec_no_ds_proof t g.
+Proof. exact nsec_for_ds_insecure_sound. Qed.
+Print Assumptions C14_nsec_for_ds_insecure_sound.
+
+Theorem C14_nsec_for_ds_intermediate_sound : forall t gs,
+  nsec_for_ds t gs = SecureIntermediate ->
+  exists g, In g gs /\ dg_rtype g = rt_NSEC /\ dg_valid g = true /\
+    ((name_eqb t (dg_owner g) = true /\ dg_ce g = None /\ dhas rt_DS g = false /\ dhas rt_SOA g = false /\ dhas rt_NS g = false) \/
+     (name_eqb t (dg_owner g) = false /\ nsec_in_range t (dg_owner g) (dg_next g) = true /\ ends_with (dg_next g) t = true)).
+Proof. exact nsec_for_ds_intermediate_sound. Qed.
+Print Assumptions C14_nsec_for_ds_intermediate_sound.
+
+Theorem C14_nsec3_for_ds_insecure_sound : forall H ci cb t gs,
+  nsec3_for_ds H ci cb t gs = Ok InsecureDelegation -> exists g, In g gs /\ nsec3_no_ds_proof H ci cb t g.
+Proof. exact nsec3_for_ds_insecure_sound. Qed.
+Print Assumptions C14_nsec3_for_ds_insecure_sound.
+
+Theorem C14_insecure_only_with_no_ds_proof : forall H ci cb t gs,
+  no_ds_decision H ci cb t gs = Ok InsecureDelegation ->
+  exists g, In g gs /\ (nsec_no_ds_proof t g \/ nsec3_no_ds_proof H ci cb t g).
+Proof. exact insecure_only_with_no_ds_proof. Qed.
+Print Assumptions C14_insecure_only_with_no_ds_proof.
